@@ -103,6 +103,8 @@ def gurobi(f):
         for q in getattr(f, 'qmat', []) or []:
             m.addConstr(gp.quicksum(xs[k] * xs[k] for k in q[1:]) <= xs[q[0]] * xs[q[0]])
         m.Params.DualReductions = 0
+        m.Params.TimeLimit = 30
+        m.Params.Threads = 1
         m.optimize()
         st = m.Status
         if st == gp.GRB.OPTIMAL:
